@@ -41,6 +41,15 @@ enum PMsg {
     Panicked(String),
 }
 
+enum CCmd {
+    Op(String, usize),
+}
+
+enum CMsg {
+    Yield(String),
+    Done(Value, Vec<u8>),
+}
+
 #[derive(Default)]
 struct PShared {
     done: Vec<Value>,
@@ -142,7 +151,92 @@ fn run_case(out: &mut Out, case: &Value) {
     let probe = body.verif_probe().expect("streaming body has a probe");
     let wakers: Vec<Arc<IdWaker>> = (0..NWAKERS).map(|_| Arc::new(IdWaker { hits: AtomicUsize::new(0) })).collect();
     let std_wakers: Vec<Waker> = wakers.iter().map(|w| Waker::from(w.clone())).collect();
-    let mut body = Some(Box::pin(body));
+    // ---- consumer thread: owns the body; runs one Reader operation per command.  Its yield hook
+    // lets the first scheduling point of an operation through (the operation was scheduled as a
+    // whole) and blocks at any further one, which then becomes a scheduling point of its own.
+    let (c_cmd_tx, c_cmd_rx) = channel::<CCmd>();
+    let (c_msg_tx, c_msg_rx) = channel::<CMsg>();
+    let (c_grant_tx, c_grant_rx) = channel::<()>();
+    let c_wakers = std_wakers.clone();
+    let c_handle = std::thread::spawn(move || {
+        let mut body = Some(Box::pin(body));
+        let first = std::rc::Rc::new(std::cell::Cell::new(false));
+        let first2 = first.clone();
+        let tx_hook = c_msg_tx.clone();
+        set_thread_hook(Some(Box::new(move |site: Site| {
+            if first2.get() {
+                first2.set(false);
+                return;
+            }
+            let _ = tx_hook.send(CMsg::Yield(site.name().to_string()));
+            let _ = c_grant_rx.recv();
+        })));
+        while let Ok(CCmd::Op(op, w)) = c_cmd_rx.recv() {
+            first.set(true);
+            let mut r = no_res();
+            let mut bytes: Vec<u8> = Vec::new();
+            match op.as_str() {
+                "poll" => {
+                    let widx = w.clamp(1, NWAKERS) - 1;
+                    let mut cx = Context::from_waker(&c_wakers[widx]);
+                    let b = body.as_mut().unwrap();
+                    match catch(|| Pin::as_mut(b).poll_frame(&mut cx)) {
+                        Err(msg) => {
+                            r["res"] = json!("panic");
+                            r["msg"] = json!(msg);
+                        }
+                        Ok(Poll::Pending) => r["res"] = json!("pending"),
+                        Ok(Poll::Ready(None)) => r["res"] = json!("end"),
+                        Ok(Poll::Ready(Some(Err(_)))) => r["res"] = json!("err"),
+                        Ok(Poll::Ready(Some(Ok(f)))) => match f.into_data() {
+                            Ok(mut d) => {
+                                let n = d.remaining();
+                                let mut v = vec![0u8; n];
+                                d.copy_to_slice(&mut v);
+                                r["res"] = json!("data");
+                                r["n"] = json!(n);
+                                if !v.is_empty() {
+                                    r["fs"] = json!(v[0]);
+                                    r["single"] = json!(v[0] < 251
+                                        && v.windows(2).all(|p| p[1] as u16 == (p[0] as u16 + 1) % 251));
+                                }
+                                bytes = v;
+                            }
+                            Err(_) => r["res"] = json!("trailers"),
+                        },
+                    }
+                }
+                "hint" => {
+                    let b = body.as_ref().unwrap();
+                    match catch(|| b.size_hint()) {
+                        Ok(h) => {
+                            r["res"] = json!("hint");
+                            r["lo"] = json!(h.lower());
+                            r["up"] = json!(h.upper().map(|u| u as i64).unwrap_or(-1));
+                        }
+                        Err(msg) => { r["res"] = json!("panic"); r["msg"] = json!(msg); }
+                    }
+                }
+                "eos" => {
+                    let b = body.as_ref().unwrap();
+                    match catch(|| b.is_end_stream()) {
+                        Ok(e) => { r["res"] = json!("eos"); r["eos"] = json!(e); }
+                        Err(msg) => { r["res"] = json!("panic"); r["msg"] = json!(msg); }
+                    }
+                }
+                "drop" => {
+                    let b = body.take();
+                    let _ = catch(move || drop(b));
+                    r["res"] = json!("dropped");
+                }
+                _ => {}
+            }
+            let _ = c_msg_tx.send(CMsg::Done(r, bytes));
+        }
+        set_thread_hook(None);
+        drop(body);
+    });
+    let mut c_mid: Option<(String, usize)> = None;
 
     // ---- producer thread
     let (to_p, p_rx) = channel::<()>();
@@ -314,7 +408,19 @@ fn run_case(out: &mut Out, case: &Value) {
         let can_poll_nospur = alive && (park == 0 || woken[park]);
         let can_poll = alive && (can_poll_nospur || spur < maxspur);
         // ---- choose the next step
-        let choice: Option<(String, String, usize)> = if si < sched.len() {
+        let choice: Option<(String, String, usize)> = if let Some((mop, mw)) = c_mid.clone() {
+            // a consumer operation is parked at a second scheduling point inside the operation
+            // (does not happen on the pinned tree): interleave the producer with its continuation
+            if si < sched.len() {
+                out.emit(json!({"ev": "step", "t": "X", "cop": "diverged", "r": no_res(), "at": si}));
+                si = sched.len();
+            }
+            if p_runnable && rng.below(100) < 60 {
+                Some(("P".into(), "".into(), 0))
+            } else {
+                Some(("C".into(), mop, mw))
+            }
+        } else if si < sched.len() {
             let s = &sched[si];
             si += 1;
             let t = s[0].as_str().unwrap_or("").to_string();
@@ -395,9 +501,8 @@ fn run_case(out: &mut Out, case: &Value) {
                 break;
             }
         } else {
-            let mut r = no_res();
-            match op.as_str() {
-                "poll" => {
+            if c_mid.is_none() {
+                if op == "poll" {
                     if park != 0 && !woken[park] {
                         spur += 1;
                     }
@@ -408,82 +513,59 @@ fn run_case(out: &mut Out, case: &Value) {
                     if term {
                         after += 1;
                     }
-                    let widx = w.clamp(1, NWAKERS) - 1;
-                    let mut cx = Context::from_waker(&std_wakers[widx]);
-                    let b = body.as_mut().unwrap();
-                    match catch(|| Pin::as_mut(b).poll_frame(&mut cx)) {
-                        Err(msg) => {
-                            r["res"] = json!("panic");
-                            r["msg"] = json!(msg);
-                            term = true;
-                        }
-                        Ok(Poll::Pending) => {
-                            r["res"] = json!("pending");
-                            park = widx + 1;
-                        }
-                        Ok(Poll::Ready(None)) => {
-                            r["res"] = json!("end");
-                            term = true;
-                        }
-                        Ok(Poll::Ready(Some(Err(_)))) => {
-                            r["res"] = json!("err");
-                            term = true;
-                        }
-                        Ok(Poll::Ready(Some(Ok(f)))) => match f.into_data() {
-                            Ok(mut d) => {
-                                let n = d.remaining();
-                                let mut v = vec![0u8; n];
-                                d.copy_to_slice(&mut v);
-                                r["res"] = json!("data");
-                                r["n"] = json!(n);
-                                if !v.is_empty() {
-                                    r["fs"] = json!(v[0]);
-                                    r["single"] = json!(v[0] < 251
-                                        && v.windows(2).all(|p| p[1] as u16 == (p[0] as u16 + 1) % 251));
-                                }
-                                delivered.extend_from_slice(&v);
-                            }
-                            Err(_) => r["res"] = json!("trailers"),
-                        },
-                    }
                 }
-                "hint" => {
-                    let b = body.as_ref().unwrap();
-                    match catch(|| b.size_hint()) {
-                        Ok(h) => {
-                            r["res"] = json!("hint");
-                            r["lo"] = json!(h.lower());
-                            r["up"] = json!(h.upper().map(|u| u as i64).unwrap_or(-1));
-                        }
-                        Err(msg) => { r["res"] = json!("panic"); r["msg"] = json!(msg); }
-                    }
-                }
-                "eos" => {
-                    let b = body.as_ref().unwrap();
-                    match catch(|| b.is_end_stream()) {
-                        Ok(e) => { r["res"] = json!("eos"); r["eos"] = json!(e); }
-                        Err(msg) => { r["res"] = json!("panic"); r["msg"] = json!(msg); }
-                    }
-                }
-                "drop" => {
-                    let b = body.take();
-                    let _ = catch(move || drop(b));
-                    alive = false;
-                    park = 0;
-                    ctl.cdropped.store(true, Ordering::SeqCst);
-                    r["res"] = json!("dropped");
-                }
-                _ => {}
+                let _ = c_cmd_tx.send(CCmd::Op(op.clone(), w));
+            } else {
+                let _ = c_grant_tx.send(());
             }
+            let msg = c_msg_rx.recv_timeout(Duration::from_secs(20));
             let wake = collect_wakes!();
             let mut e = base_event("C", &ctl, snap_json(&snapshot!()), pfin);
-            e["cop"] = json!(op);
             e["w"] = json!(w);
-            e["r"] = r;
             e["wake"] = json!(wake);
-            out.emit(e);
+            match msg {
+                Ok(CMsg::Yield(site)) => {
+                    c_mid = Some((op.clone(), w));
+                    e["cop"] = json!("cont");
+                    e["site"] = json!(site);
+                    out.emit(e);
+                }
+                Ok(CMsg::Done(r, bytes)) => {
+                    c_mid = None;
+                    match (op.as_str(), r["res"].as_str().unwrap_or("")) {
+                        ("poll", "pending") => park = w.clamp(1, NWAKERS),
+                        ("poll", "end") | ("poll", "err") | ("poll", "panic") => term = true,
+                        ("drop", _) => {
+                            alive = false;
+                            park = 0;
+                            ctl.cdropped.store(true, Ordering::SeqCst);
+                        }
+                        _ => {}
+                    }
+                    delivered.extend_from_slice(&bytes);
+                    // the snapshot must be taken after the operation completed
+                    e["snap"] = snap_json(&snapshot!());
+                    e["cop"] = json!(op);
+                    e["r"] = r;
+                    out.emit(e);
+                }
+                Err(_) => {
+                    out.emit(json!({"ev": "step", "t": "X", "cop": "chang", "r": no_res()}));
+                    break;
+                }
+            }
         }
     }
+    // finish a consumer operation that is still parked, then stop the consumer thread
+    while c_mid.is_some() {
+        let _ = c_grant_tx.send(());
+        match c_msg_rx.recv_timeout(Duration::from_secs(20)) {
+            Ok(CMsg::Yield(_)) => {}
+            _ => c_mid = None,
+        }
+    }
+    drop(c_cmd_tx);
+    let _ = c_handle.join();
     // ---- final facts about the whole body (C09 / C17)
     let acc = ctl.shared.lock().unwrap().accepted.clone();
     let mut fin = json!({"ev": "final", "delivered": delivered.len(), "accepted": acc.len(), "term": term, "alive": alive,
